@@ -176,6 +176,7 @@ func (vc *VC) freshResult(st *State, sig *types.Signature) T {
 }
 
 func (vc *VC) havocAll(st *State) {
+	st.keepBase = nil
 	nh := map[string]string{}
 	for k, v := range st.heap {
 		if vc.heapImm[k] {
@@ -232,7 +233,30 @@ func (vc *VC) dynCall(st *State, fr *Frame, x *ssa.Call, fv T, args []T, cont fu
 	st.callsA = na.S
 	idx := st.callsN
 	st.callsN = app("+", st.callsN, "1")
-	vc.havocAll(st)
+	if keep := vc.keepPrefix(st); keep != "" {
+		// assumption (listed in the evidence): a function value cannot
+		// change the unexported state of this package (it has no access
+		// to it; thunks go through call0, whose contract restores it)
+		vc.note("assumed: dynamic calls leave the state of package-local structs (" + keep + "*) unchanged")
+		saved := map[string]string{}
+		for k, v := range st.heap {
+			if strings.HasPrefix(k, keep) {
+				saved[k] = v
+			}
+		}
+		// keys not yet touched on this path must keep their current base version
+		base := st.baseVer
+		if st.keepBase != nil && st.keepBase["prefix"] == keep {
+			base = st.keepBase["ver"]
+		}
+		vc.havocAll(st)
+		for k, v := range saved {
+			st.heap[k] = v
+		}
+		st.keepBase = map[string]string{"prefix": keep, "ver": base}
+	} else {
+		vc.havocAll(st)
+	}
 	r := vc.freshResult(st, sig)
 	if r.Sort == SInt {
 		nr := vc.fresh("callsR", "(Array Int Int)")
@@ -256,6 +280,17 @@ func (vc *VC) dynCall(st *State, fr *Frame, x *ssa.Call, fv T, args []T, cont fu
 		}
 	}
 	cont(st, fr, r)
+}
+
+func (vc *VC) keepPrefix(st *State) string {
+	b := st.ctx.blk
+	for b != nil {
+		if b.HasUse("dyncall-keeps-pkg-state") {
+			return "F_" + mangle(vc.fn.Pkg.Pkg.Path()) + "_"
+		}
+		b = b.Parent
+	}
+	return ""
 }
 
 func (b *Block) HasUse(u string) bool {
